@@ -107,6 +107,17 @@ def pat_forward_only(rank, size, pt):
     return {"out": r + x}
 
 
+def pat_silent_rank(rank, size, pt):
+    """ranks 0 and 1 exchange one message each, the last rank computes locally only (no send, no receive)"""
+    x = _x(pt)
+    if rank == size - 1:
+        return {"out": x * x + 1, "second": x - 2}
+    other = 1 - rank
+    r1 = pt.make_distributed_recv(src_rank=other, comm_tag=40 + other, shape=(3,), dtype=F64)
+    o = pt.staple_distributed_send(x + rank, other, 40 + rank, stapled_to=r1 * 2)
+    return {"out": o}
+
+
 def pat_outputs_are_inputs(rank, size, pt):
     other = 1 - rank
     x = _x(pt)
@@ -218,7 +229,7 @@ def _pingpong(rounds):
 
 
 PATTERNS = {
-    "pingpong4": (_pingpong(4), (2,)), "pingpong5": (_pingpong(5), (2,)),
+    "pingpong4": (_pingpong(4), (2,)), "pingpong5": (_pingpong(5), (2,)), "silent_rank": (pat_silent_rank, (3,)),
     "single": (pat_single, (1,)), "exchange2": (pat_exchange2, (2,)), "ring": (pat_ring, (2, 3, 4)),
     "ring_2rounds": (pat_ring_2rounds, (2, 3)), "star": (pat_star, (2, 3, 4)), "chain": (pat_chain, (2, 3, 4)),
     "multi_send": (pat_multi_send, (2,)), "forward_only": (pat_forward_only, (3,)),
@@ -230,7 +241,7 @@ PATTERNS = {
 QUICK = [("single", 1), ("exchange2", 2), ("ring", 2), ("ring", 3), ("star", 2), ("chain", 2), ("chain", 3),
          ("multi_send", 2), ("forward_only", 3), ("outputs_are_inputs", 2), ("materialized", 2), ("two_way_dependent", 2),
          ("ring_2rounds", 2), ("late_use_of_early_recv", 2), ("diamond", 3), ("three_rounds", 2),
-         ("three_rounds_one_way", 2), ("pingpong4", 2)]
+         ("three_rounds_one_way", 2), ("pingpong4", 2), ("silent_rank", 3)]
 THOROUGH = QUICK + [("pingpong5", 2), ("star", 3), ("ring_2rounds", 3), ("chain", 4), ("ring", 4)]      # (star/4: > 4000 schedules, not confirmed within 25 min -- left out, stated in "outside")
 
 
